@@ -264,7 +264,18 @@ def execute(ctx, op, seed_of=None):
     r = sess.rnd(op)
     s = ctx.state
     if o == "Seed":
-        qucumber.set_random_seed((seed_of or sess.seed_value)(op["k"]), cpu=True, gpu=False, quiet=True)
+        # the seeding call in every form that seeds the CPU generator (gpu=True is a legitimate request on a
+        # machine without CUDA: a script written for a GPU box)
+        sd = (seed_of or sess.seed_value)(op["k"])
+        form = r.randrange(4)
+        if form == 0:
+            qucumber.set_random_seed(sd, cpu=True, gpu=False, quiet=True)
+        elif form == 1:
+            qucumber.set_random_seed(sd, True, True, True)
+        elif form == 2:
+            qucumber.set_random_seed(sd, gpu=True, quiet=True)
+        else:
+            qucumber.set_random_seed(sd, quiet=True)
         return None
     if o == "Construct":
         ctx.state = make_state(sess.typ, sess.nv, sess.nh, sess.na, sess.saturated)
